@@ -174,7 +174,17 @@ Fixpoint decode_loop (dv : source -> dres value) (k : nat) (n : N) (s : source) 
     end
   end.
 
-(** The body of DecodeValue, with the recursive call for list elements abstracted. *)
+(** case ListType, with the recursive decoding of the elements abstracted. *)
+Definition dec_list (rec_list : N -> source -> dres (list value)) (s1 : source) : dres value :=
+  let '(size, eof, s2) := next_uint32 s1 in
+  if eof then DErr ErrFormat else
+  match rec_list size s2 with
+  | DOk l s3 => DOk (XList l) s3
+  | DErr e => DErr e
+  | DFuel => DFuel
+  end.
+
+(** The body of DecodeValue: the type byte, then the switch. *)
 Definition decode_body (rec_list : N -> source -> dres (list value)) (s : source) : dres value :=
   let '(ty, eof, s1) := next_byte s in
   if eof then DErr ErrFormat else
@@ -184,14 +194,7 @@ Definition decode_body (rec_list : N -> source -> dres (list value)) (s : source
   else if ty =? BooleanType then dec_bool s1
   else if ty =? IntType then dec_fixed next_i128 (fun x => XInt (i128_to_big x)) s1
   else if ty =? H256Type then dec_fixed next_hash XH256 s1
-  else if ty =? ListType then
-    let '(size, eof, s2) := next_uint32 s1 in
-    if eof then DErr ErrFormat else
-    match rec_list size s2 with
-    | DOk l s3 => DOk (XList l) s3
-    | DErr e => DErr e
-    | DFuel => DFuel
-    end
+  else if ty =? ListType then dec_list rec_list s1
   else DErr ErrNotSupported.
 
 Fixpoint decode_fuel (fuel : nat) (s : source) : dres value :=
@@ -295,6 +298,12 @@ Fixpoint value_eqb (a b : value) : bool :=
   | XBool x, XBool y => eqb x y
   | XInt x, XInt y => Z.eqb x y
   | XH256 x, XH256 y => bytes_eqb x y
-  | XList x, XList y => list_eqb value_eqb x y
+  | XList x, XList y =>
+    (fix go (x y : list value) : bool :=
+       match x, y with
+       | [], [] => true
+       | v :: x', w :: y' => value_eqb v w && go x' y'
+       | _, _ => false
+       end) x y
   | _, _ => false
   end.
